@@ -35,7 +35,6 @@ import (
 	"github.com/New-JAMneration/JAM-Protocol/PVM"
 	"github.com/New-JAMneration/JAM-Protocol/internal/types"
 	h "github.com/New-JAMneration/JAM-Protocol/internal/verifh"
-	"github.com/New-JAMneration/JAM-Protocol/internal/verifpvm"
 )
 
 func init() { debug.SetGCPercent(400) }
@@ -43,12 +42,12 @@ func init() { debug.SetGCPercent(400) }
 // the refining service's own program: instruction starts at 0, 9, 18, 27, ... so that its skip
 // distances differ from those of every generated inner program
 var outerProgram = func() *PVM.Program {
-	a := &verifpvm.Asm{}
+	a := &Asm{}
 	for i := 0; i < 12; i++ {
 		a.Ins(51, 7, 1, 2, 3, 4, 0, 0, 0) // load_imm with a long (zero-extended) immediate
 	}
 	a.Ins(0)
-	p, ex := PVM.DeBlobProgramCode(verifpvm.MkBlob(nil, 0, a.Code, a.Mask))
+	p, ex := PVM.DeBlobProgramCode(mkBlob(nil, 0, a.Code, a.Mask))
 	if ex != PVM.ExitContinue {
 		panic("verifh: outer program does not deblob")
 	}
@@ -71,7 +70,7 @@ func dumpPages(m *PVM.Memory) string {
 			parts = append(parts, fmt.Sprintf("%d:nil", k))
 			continue
 		}
-		s := verifpvm.FmtPage(k, int(p.Access), p.Value)
+		s := fmtPage(k, int(p.Access), p.Value)
 		if len(p.Value) != PVM.ZP {
 			s += fmt.Sprintf(":len=%d", len(p.Value))
 		}
@@ -113,7 +112,7 @@ func fmtRegs(r *PVM.Registers) string {
 }
 
 func parseOuter(spec string) *PVM.Memory {
-	mem := PVM.VerifC01NewMemory(0, 0)
+	mem := PVM.VerifC33NewMemory()
 	if spec == "-" {
 		return mem
 	}
@@ -232,4 +231,4 @@ func run(input string) string {
 	return strings.Join(recs, " ; ")
 }
 
-func main() { verifpvm.Main(gen, run) }
+func main() { harnessMain(gen, run) }
